@@ -175,6 +175,33 @@ func sampleOf(c *Case, r *harness.Result) any {
 	if c.Program != nil {
 		yaml = c.Program.YAML()
 	}
+	if c.Prov != nil {
+		res["provider_actions"] = c.Prov.Actions
+		var notes []string
+		for _, e := range r.Events {
+			if e.Kind == "notify" {
+				notes = append(notes, fmt.Sprintf("%v(%v,%v->%v)", e.Data["t"], e.Data["prev"], e.Data["out"], e.Data["stage"]))
+			}
+		}
+		res["notifications"] = notes
+	}
+	if c.Prep != nil {
+		res["variants"] = c.Prep.Variants
+		res["corruption"] = c.Prep.Corruption
+		var verdicts []string
+		for _, pr := range c.Prep.res {
+			verdicts = append(verdicts, verdict(pr.err))
+		}
+		res["verdicts"] = verdicts
+	}
+	if c.Eng != nil {
+		res["engine_case"] = map[string]any{"relative_dir": c.Eng.RelativeDir, "chdir_to": c.Eng.ChdirTo, "missing_file": c.Eng.MissingFile, "unreadable": c.Eng.Unreadable}
+		var runs []any
+		for _, er := range c.Eng.runs {
+			runs = append(runs, map[string]any{"how": er.how, "output": er.id, "is_error": er.isErr, "err": firstLines(er.err, 1)})
+		}
+		res["engine_runs"] = runs
+	}
 	return map[string]any{"profile": c.Profile, "workflow_yaml": yaml, "input": c.Doc, "plan": c.Plan, "policy": c.Policy, "map_mode": c.MapMode, "extra": c.Extra,
 		"first_decisions": picks, "decisions": r.Stats.Decisions, "simulated_us": r.Stats.SimTime.Microseconds(), "outcome": r.Outcome, "results": res, "faults_fired": r.Fired}
 }
@@ -188,7 +215,8 @@ func minimiseSchedule(t *testing.T, def *PropDef, c *Case, r *harness.Result, ru
 	fails := func(cand *Case) (*harness.Result, bool) {
 		rr, vs := checkCase(t, def, cand)
 		for _, v := range vs {
-			if v.Rule == rule {
+			// minimisation must not drift into a recorded known finding
+			if v.Rule == rule && knownID(v) == "" {
 				return rr, true
 			}
 		}
@@ -363,7 +391,7 @@ func TestWorker(t *testing.T) {
 		v := fail.v
 		if _, vs := checkCase(t, def, mc); len(vs) > 0 {
 			for _, x := range vs {
-				if x.Rule == fail.v.Rule {
+				if x.Rule == fail.v.Rule && knownID(x) == "" {
 					v = x
 				}
 			}
